@@ -73,7 +73,8 @@ theorem Iter.get_isSome (e : Iter) : ∀ i, (e.get i).isSome = e.len.gt i := by
         cases b.len <;> simp [Len.add, h]; omega
       · simp only [h, if_false, ihb]
         cases b.len <;> simp [Len.add]; omega
-  | mapc f pre post a ih => intro i; simp [Iter.get, Iter.len, ih]
+  | mapc g f pre post a ih => intro i; simp [Iter.get, Iter.len, ih]
+  | dead a _ => intro i; simp [Iter.get, Iter.len]
   | map2 f a b iha ihb =>
     intro i
     simp only [Iter.get, Iter.len, Len.gt_min, ← iha, ← ihb]
@@ -167,7 +168,8 @@ theorem Iter.stepOK (e : Iter) : StepOK e := by
         · rw [hstep] at hy ⊢
           obtain ⟨h1, h2⟩ := ihb.tail y hy
           exact ⟨fun i => by rw [h1, hget], by rw [hlen, h2]⟩
-  | mapc f pre post a ih =>
+  | dead a _ => exact ⟨rfl, fun x h => by simp [Iter.step] at h⟩
+  | mapc g f pre post a ih =>
     cases hs : a.step with
     | mk o a' =>
       have hh := ih.head; rw [hs] at hh
